@@ -326,15 +326,38 @@ impl GraphDatabaseService {
     pub fn mutation_stream(&self) -> (mpsc::Sender<(String, Option<Parameters>)>, MutateReceiver) {
         let (send, mut recv) = mpsc::channel::<(String, Option<Parameters>)>(2);
         let (send_res, recv_res) = mpsc::channel::<Result<MutationQuery>>(2);
+        //the replies go through this task, so that the daily log is computed after the last mutation is written
+        let (inner_res, mut inner_recv) = mpsc::channel::<Result<MutationQuery>>(2);
         let dbsender = self.sender.clone();
         tokio::spawn(async move {
-            while let Some((mutate, param_opt)) = recv.recv().await {
-                let msg = DbMessage::MutateStream(
-                    mutate,
-                    param_opt.unwrap_or_default(),
-                    send_res.clone(),
-                );
-                let _ = dbsender.send(msg).await;
+            let mut pending: usize = 0;
+            let mut input_closed = false;
+            while !input_closed || pending > 0 {
+                tokio::select! {
+                    query = recv.recv(), if !input_closed => {
+                        match query {
+                            Some((mutate, param_opt)) => {
+                                let msg = DbMessage::MutateStream(
+                                    mutate,
+                                    param_opt.unwrap_or_default(),
+                                    inner_res.clone(),
+                                );
+                                pending += 1;
+                                let _ = dbsender.send(msg).await;
+                            }
+                            None => input_closed = true,
+                        }
+                    }
+                    reply = inner_recv.recv(), if pending > 0 => {
+                        match reply {
+                            Some(reply) => {
+                                pending -= 1;
+                                let _ = send_res.send(reply).await;
+                            }
+                            None => break,
+                        }
+                    }
+                }
             }
             let _ = dbsender.send(DbMessage::ComputeDailyLog()).await;
         });
